@@ -80,6 +80,11 @@ func Explore(l *Loaded, c *Check, o Options) (*HarnessResult, error) {
 			mu.Unlock()
 			return
 		}
+		if w == 0 && os.Getenv("VERIF_SMTLOG") != "" {
+			if f, err := os.Create(os.Getenv("VERIF_SMTLOG")); err == nil {
+				s.Log = f
+			}
+		}
 		defer func() {
 			mu.Lock()
 			for r, n := range s.Queries {
